@@ -228,6 +228,9 @@ func (r *Run) Violation(key, what string, witness interface{}) bool {
 		return true
 	}
 	dir := filepath.Join(r.Root, "replays")
+	if d := os.Getenv("VERIF_REPLAY_DIR"); d != "" {
+		dir = d
+	}
 	os.MkdirAll(dir, 0o755)
 	name := fmt.Sprintf("%s-%s-seed%d-shard%d-%d.json", r.ID, r.Tier, r.Seed, r.Shard, len(r.violKeys))
 	p := filepath.Join(dir, name)
